@@ -39,6 +39,10 @@ FLAVOURS = {
     # coverage-guided driver (libFuzzer exists only in clang)
     "clang-fuzz": ("clang++", ["-std=c++20", "-O1", "-g1", "-fsanitize=fuzzer,address,undefined", "-fno-sanitize-recover=all",
                                "-fno-sanitize=object-size", "-fno-omit-frame-pointer"]),
+    # wrap monitor: unsigned overflow / implicit truncation inside the header's functions only, reported through __ubsan_on_report
+    "clang-wrap": ("clang++", ["-std=c++20", "-O1", "-g1", "-fsanitize=unsigned-integer-overflow,implicit-conversion",
+                               "-fsanitize-recover=unsigned-integer-overflow,implicit-conversion",
+                               "-fsanitize-ignorelist=" + os.path.join(HARNESS, "include", "svmon", "ubsan_ignorelist.txt"), "-DSVMON_UBSAN_HOOK"]),
     "plain-rel":  ("g++", ["-std=c++17", "-O2", "-DNDEBUG"]),
     "plain-dbg":  ("g++", ["-std=c++17", "-O1", "-g"]),
 }
